@@ -235,6 +235,10 @@ func (cj *CookieJar) parseCookiesFromResp(host, path []byte, resp *fasthttp.Resp
 		if maxAge, ok := cookieMaxAge(value); ok {
 			expired = maxAge <= 0
 			if !expired {
+				// far-away deadlines are capped (ten years) so that the duration cannot overflow
+				if maxAge > 10*365*24*3600 {
+					maxAge = 10 * 365 * 24 * 3600
+				}
 				parsed.SetExpire(now.Add(time.Duration(maxAge) * time.Second))
 			}
 		}
